@@ -1,25 +1,523 @@
-//! C06 — not built yet (stub).
+//! C06 — readers see one consistent snapshot during commits and compaction.
+//!
+//! Threads of a case: compaction(s), committing writer(s), reader(s), scheduled by an explicit
+//! script over the relevant pause points (quick tier: every merge of one reader's open steps
+//! with one compaction and one commit, both lock orders).
+//!  * finder (implementation alone): `Index::reader()` must succeed; the reader's contents equal
+//!    one committed state (states taken from a serial re-execution with the real code) that is
+//!    compatible with the recorded order; a reader opened before the changes and every reader
+//!    opened during them returns the same contents when searched again after all changes.
+//!  * correspondence: the recorded schedule, translated to `SL.Snap` steps (copy/open,
+//!    create/publish/unlink with the segment ids of the manifests captured at the publish
+//!    points), is run through the Lean model: predicted open outcome and copied manifest must
+//!    equal the implementation's; the monitor `openWindowProtected` is reported.
+use super::c05::sched::{self, Ev, Strategy, Timing};
+use super::c05::{contents, exec_call, prefill, schema_json, IDS};
+use crate::idx;
 use crate::proto::Driver;
 use crate::rng::Rng;
 use crate::summary::Summary;
+use crate::util::{guarded, scratch};
 use crate::{Prop, Tier};
+use searchlite_core::api::writer::IndexWriter;
+use searchlite_core::api::{Index, IndexReader};
 use serde_json::{json, Value};
+use std::collections::BTreeMap;
+use std::sync::{Arc, Mutex};
 
-pub struct Stub;
-pub static P: Stub = Stub;
+pub struct C06;
+pub static P: C06 = C06;
 
-impl Prop for Stub {
+/// committed states of a serial re-execution, by (backend, prefill, calls, section order)
+static STATES: Mutex<BTreeMap<String, Vec<BTreeMap<String, String>>>> = Mutex::new(BTreeMap::new());
+
+fn manifest_json(index: &Index) -> Value {
+  let m = index.manifest();
+  json!(m.segments.iter().map(|s| json!([s.id, format!("{:?}", s.deleted_docs)])).collect::<Vec<_>>())
+}
+
+fn reader_manifest_json(r: &IndexReader) -> Value {
+  json!(r.manifest.segments.iter().map(|s| json!([s.id, format!("{:?}", s.deleted_docs)])).collect::<Vec<_>>())
+}
+
+fn reader_contents(r: &IndexReader) -> Result<BTreeMap<String, String>, String> {
+  let req = json!({"query": {"type": "match_all"}, "limit": 100000, "return_stored": true, "execution": "bm25"});
+  match idx::search(r, &req) {
+    idx::Outcome::Ok(v) => {
+      let mut out = BTreeMap::new();
+      for h in v["hits"].as_array().cloned().unwrap_or_default() {
+        let id = h["doc_id"].as_str().unwrap_or("").to_string();
+        if out.insert(id.clone(), h["fields"]["body"].as_str().unwrap_or("?").to_string()).is_some() {
+          return Err(format!("duplicate live id {id}"));
+        }
+      }
+      Ok(out)
+    }
+    idx::Outcome::Err(e) => Err(format!("search: {e}")),
+    idx::Outcome::Panic(e) => Err(format!("panic: {e}")),
+  }
+}
+
+fn is_queue_op(c: &Value) -> bool {
+  matches!(c["op"].as_str(), Some("add") | Some("delete"))
+}
+fn is_section_op(c: &Value) -> bool {
+  matches!(c["op"].as_str(), Some("add") | Some("delete") | Some("commit") | Some("compact") | Some("rollback"))
+}
+
+/// the leading add/delete calls of a writer thread are queued before the scheduled run
+fn split_calls(calls: &[Value]) -> (Vec<Value>, Vec<Value>) {
+  let k = calls.iter().position(|c| !is_queue_op(c)).unwrap_or(calls.len());
+  (calls[..k].to_vec(), calls[k..].to_vec())
+}
+
+fn names(m: &Value) -> Vec<String> {
+  m.as_array().map(|a| a.iter().map(|e| e[0].as_str().unwrap_or("").to_string()).collect()).unwrap_or_default()
+}
+
+fn gen_queued(rng: &mut Rng) -> Vec<Value> {
+  // touches old segments (upsert + delete → tombstones) and adds a new id
+  let mut v = vec![json!({"op": "add", "id": "n", "body": "new"}), json!({"op": "add", "id": *rng.pick(&IDS), "body": "upd"}), json!({"op": "delete", "ids": [*rng.pick(&IDS)]})];
+  rng.shuffle(&mut v);
+  v
+}
+
+/// all (p1 <= p2 <= p3) over 0..=8, index k
+fn combo(k: usize) -> (usize, usize, usize) {
+  let mut i = 0;
+  for a in 0..=8 {
+    for b in a..=8 {
+      for c in b..=8 {
+        if i == k {
+          return (a, b, c);
+        }
+        i += 1;
+      }
+    }
+  }
+  (0, 0, 0)
+}
+const COMBOS: usize = 165;
+
+impl Prop for C06 {
   fn id(&self) -> &'static str {
     "C06"
   }
   fn rule(&self) -> &'static str {
-    "stub"
+    "quick: index with two prefilled segments; threads = one compaction, one commit (an add, an upsert and a delete queued beforehand, so old segments get tombstones and a segment is added), one reader open+search; ALL merges of the reader's steps (manifest copy, each segment open) with the writer-side steps (compaction: lock, segment written, published, old files removed, done; commit: lock, published, done) in both lock orders = 2 x 165 scripts, alternating filesystem / in-memory storage in thorough and every third case in quick; thorough adds random scripts with two readers, two compactions and two commits. non-trivial = a publish or cleanup step of another thread falls between the reader's call begin and call end; distinct = distinct case JSON"
   }
-  fn count(&self, _tier: Tier) -> usize {
-    0
+  fn count(&self, tier: Tier) -> usize {
+    tier.pick(2 * COMBOS, 4 * COMBOS + 600)
   }
-  fn gen(&self, _rng: &mut Rng, _tier: Tier, _i: usize) -> Value {
-    json!(null)
+  fn serial(&self) -> bool {
+    true
   }
-  fn run_case(&self, _drv: &mut Driver, _case: &Value, _s: &mut Summary) {}
+  fn gen(&self, rng: &mut Rng, tier: Tier, i: usize) -> Value {
+    let pre1: Vec<Value> = IDS.iter().take(3).map(|id| json!({"_id": id, "body": format!("p{id}")})).collect();
+    let pre2: Vec<Value> = IDS.iter().skip(2).take(3).map(|id| json!({"_id": id, "body": format!("q{id}")})).collect();
+    if i < 4 * COMBOS {
+      // enumerated: threads 0 = compaction, 1 = commit, 2 = reader
+      let block = i / COMBOS;
+      let kc = block % 2 == 0;
+      let mem = if tier == Tier::Quick { i % 3 == 2 } else { block >= 2 };
+      let (p1, p2, p3) = combo(i % COMBOS);
+      let w: Vec<usize> = if kc { vec![0, 0, 0, 0, 0, 1, 1, 1] } else { vec![1, 1, 1, 0, 0, 0, 0, 0] };
+      let mut script = Vec::new();
+      for slot in 0..=8 {
+        if slot == p1 {
+          script.push(2);
+          script.push(2);
+        }
+        if slot == p2 {
+          script.push(2);
+        }
+        if slot == p3 {
+          script.push(2);
+        }
+        if slot < 8 {
+          script.push(w[slot]);
+        }
+      }
+      let mut c_calls = gen_queued(rng);
+      c_calls.push(json!({"op": "commit"}));
+      return json!({"mem": mem, "prefill": [pre1, pre2], "threads": [[{"op": "compact"}], c_calls, [{"op": "open"}]], "sched": {"kind": "script", "script": script}});
+    }
+    // random: two readers, compaction twice, two commits
+    let mut c1 = gen_queued(rng);
+    c1.push(json!({"op": "commit"}));
+    c1.push(json!({"op": "add", "id": *rng.pick(&IDS), "body": "second"}));
+    c1.push(json!({"op": "commit"}));
+    let threads = json!([[{"op": "compact"}, {"op": "compact"}], c1, [{"op": "open"}], [{"op": "open"}, {"op": "open"}]]);
+    let script: Vec<usize> = (0..40).map(|_| rng.below(4)).collect();
+    json!({"mem": rng.chance(1, 2), "prefill": [pre1, pre2], "threads": threads, "sched": {"kind": "script", "script": script}})
+  }
+
+  fn run_case(&self, drv: &mut Driver, case: &Value, s: &mut Summary) {
+    let mem = case["mem"].as_bool().unwrap_or(false);
+    let threads: Vec<Vec<Value>> = case["threads"].as_array().map(|a| a.iter().map(|t| t.as_array().cloned().unwrap_or_default()).collect()).unwrap_or_default();
+    let n = threads.len();
+    if n == 0 {
+      return;
+    }
+    let dir = scratch();
+    let index = match idx::create(dir.path(), &schema_json(), mem) {
+      Ok(i) => Arc::new(i),
+      Err(e) => {
+        s.fail("setup.create", "index creation failed", case, json!(e));
+        return;
+      }
+    };
+    if let Err(e) = prefill(&index, case) {
+      s.fail("setup.prefill", "prefill failed", case, json!(e));
+      return;
+    }
+    let m0 = manifest_json(&index);
+    // reader opened before any change
+    let pre_reader = match index.reader() {
+      Ok(r) => r,
+      Err(e) => {
+        s.fail("setup.reader", "reader before the run failed", case, json!(e.to_string()));
+        return;
+      }
+    };
+    let s0 = match reader_contents(&pre_reader) {
+      Ok(c) => c,
+      Err(e) => {
+        s.fail("setup.search", "search before the run failed", case, json!(e));
+        return;
+      }
+    };
+    // writer handles + queued operations, before the scheduled run
+    let is_writer: Vec<bool> = threads.iter().map(|t| t.iter().any(|c| matches!(c["op"].as_str(), Some("add") | Some("delete") | Some("commit") | Some("rollback")))).collect();
+    let is_reader: Vec<bool> = threads.iter().map(|t| t.iter().any(|c| c["op"] == "open")).collect();
+    let mut handles: Vec<Option<IndexWriter>> = Vec::new();
+    let mut scheduled: Vec<Vec<Value>> = Vec::new();
+    for t in 0..n {
+      let (pre, rest) = split_calls(&threads[t]);
+      let mut w = if is_writer[t] { index.writer().ok() } else { None };
+      for c in &pre {
+        let r = exec_call(&index, &mut w, c);
+        if r.get("err").is_some() || r.get("panic").is_some() {
+          s.fail("setup.queue", "queueing before the run failed", case, r);
+          return;
+        }
+      }
+      handles.push(w);
+      scheduled.push(rest);
+    }
+    let readers: Arc<Mutex<Vec<(usize, usize, IndexReader)>>> = Arc::new(Mutex::new(Vec::new()));
+    let bodies: Vec<sched::Body> = (0..n)
+      .map(|t| {
+        let calls = scheduled[t].clone();
+        let index = index.clone();
+        let mut w = handles[t].take();
+        let readers = readers.clone();
+        let b: sched::Body = Box::new(move |ctx: &sched::Ctx| {
+          let mut out = Vec::new();
+          for (k, c) in calls.iter().enumerate() {
+            if c["op"] == "open" {
+              ctx.begin(k, false, true);
+              let r = guarded(|| index.reader());
+              let v = match r {
+                Ok(Ok(reader)) => {
+                  let m = reader_manifest_json(&reader);
+                  let cont = reader_contents(&reader);
+                  readers.lock().unwrap().push((ctx.tid, k, reader));
+                  match cont {
+                    Ok(c) => json!({"open": "ok", "manifest": m, "contents": c}),
+                    Err(e) => json!({"open": "ok", "manifest": m, "search_error": e}),
+                  }
+                }
+                Ok(Err(e)) => json!({"open": "err", "error": e.to_string()}),
+                Err(p) => json!({"open": "panic", "error": p}),
+              };
+              out.push(v);
+              ctx.end(k);
+            } else {
+              ctx.begin(k, true, false);
+              out.push(exec_call(&index, &mut w, c));
+              ctx.end(k);
+            }
+          }
+          out
+        });
+        b
+      })
+      .collect();
+    let isw = is_writer.clone();
+    let isr = is_reader.clone();
+    let pauses: sched::Pauses = Box::new(move |t, kind, name| {
+      if name.starts_with("call.begin") {
+        return true;
+      }
+      if isr[t] && (name == "reader.after_manifest_copy" || name == "reader.before_segment_open") {
+        return true;
+      }
+      if kind == "enter" {
+        return true;
+      }
+      let _ = &isw;
+      matches!(name, "compact.after_segment" | "compact.before_cleanup" | "compact.after_cleanup" | "commit.after_publish")
+    });
+    let idx2 = index.clone();
+    let on_point: sched::OnPoint = Box::new(move |_t, _kind, name| if name == "commit.after_publish" || name == "compact.before_cleanup" { Some(manifest_json(&idx2)) } else { None });
+    let strategy = Strategy::from_json(&case["sched"], n);
+    let run = sched::run(dir.path(), strategy, Timing::default(), pauses, Some(on_point), bodies);
+    s.count(if mem { "backend_memory" } else { "backend_filesystem" });
+    s.add("scheduling_decisions", run.steps as u64);
+    s.add("grants_blocked_on_held_lock", run.blocked_predicted as u64);
+    s.add("deadline_missed_unpredicted", run.blocked_unpredicted as u64);
+    if run.stuck {
+      s.case(case, false);
+      s.fail("sched.deadlock", "threads never reached their next point (dead-lock)", case, json!({"trace": run.trace.iter().map(|e| e.to_json()).collect::<Vec<_>>()}));
+      return;
+    }
+    let tr: &Vec<Ev> = &run.trace;
+    let results: Vec<Vec<Value>> = run.results.iter().map(|r| r.clone().unwrap_or_default()).collect();
+    let pos = |t: usize, name: &str, from: usize| -> Option<usize> { (from..tr.len()).find(|i| tr[*i].thread == t && tr[*i].name == name) };
+    let trace_json: Vec<Value> = tr.iter().map(|e| e.to_json()).collect();
+
+    // ---- committed states: serial re-execution (real code) of the sections in enter order ----
+    let order = sched::enter_order(tr, n);
+    let sec_calls: Vec<Vec<Value>> = scheduled.iter().map(|cs| cs.iter().filter(|c| is_section_op(c)).cloned().collect()).collect();
+    // the committed states depend only on (backend, prefill, calls, section order): memoised
+    let memo_key = json!([mem, case["prefill"], case["threads"], order]).to_string();
+    let cached = STATES.lock().unwrap().get(&memo_key).cloned();
+    let dir2 = scratch();
+    let states = cached.map(Ok).unwrap_or_else(|| -> Result<Vec<BTreeMap<String, String>>, String> {
+      let index2 = idx::create(dir2.path(), &schema_json(), mem)?;
+      prefill(&index2, case)?;
+      let mut states = vec![contents(&index2)?];
+      let mut ws: Vec<Option<IndexWriter>> = Vec::new();
+      for t in 0..n {
+        let (pre, _) = split_calls(&threads[t]);
+        let mut w = if is_writer[t] { index2.writer().ok() } else { None };
+        for c in &pre {
+          exec_call(&index2, &mut w, c);
+        }
+        ws.push(w);
+      }
+      for (t, k) in order.iter() {
+        let c = sec_calls[*t].get(*k).ok_or("enter event without a call")?;
+        let r = exec_call(&index2, &mut ws[*t], c);
+        if r.get("err").is_some() || r.get("panic").is_some() {
+          return Err(format!("serial call failed: {r}"));
+        }
+        if c["op"] == "commit" || c["op"] == "compact" {
+          states.push(contents(&index2)?);
+        }
+      }
+      Ok(states)
+    });
+    let states = match states {
+      Ok(st) => {
+        STATES.lock().unwrap().insert(memo_key, st.clone());
+        st
+      }
+      Err(e) => {
+        s.case(case, false);
+        s.fail("serial.replay-failed", "serial re-execution failed", case, json!(e));
+        return;
+      }
+    };
+    if states[0] != s0 {
+      s.fail("setup.state0", "prefill contents differ between two fresh indexes", case, json!({"a": s0, "b": states[0]}));
+    }
+    // publish sections in trace order: (enter index, publish-complete index)
+    let mut pubs: Vec<(usize, usize)> = Vec::new();
+    {
+      let mut next = vec![0usize; n];
+      for (i, e) in tr.iter().enumerate() {
+        if e.kind == "enter" {
+          let k = next[e.thread];
+          next[e.thread] += 1;
+          let op = sec_calls[e.thread].get(k).map(|c| c["op"].as_str().unwrap_or("").to_string()).unwrap_or_default();
+          if op == "commit" || op == "compact" {
+            // complete when the section's exit is recorded
+            let exit = (i..tr.len()).find(|j| tr[*j].thread == e.thread && tr[*j].kind == "exit").unwrap_or(tr.len());
+            pubs.push((i, exit));
+          }
+        }
+      }
+    }
+    // writer-side calls must all succeed
+    for t in 0..n {
+      for (k, r) in results[t].iter().enumerate() {
+        if scheduled[t][k]["op"] != "open" && (r.get("err").is_some() || r.get("panic").is_some()) {
+          s.fail("writer.call-failed", "a commit/compaction failed during the run", case, json!({"thread": t, "call": k, "result": r}));
+        }
+      }
+    }
+
+    // ---- per reader open: finder + correspondence ----
+    let mut nontrivial = false;
+    for t in 0..n {
+      let mut from = 0usize;
+      for (k, c) in scheduled[t].iter().enumerate() {
+        if c["op"] != "open" {
+          continue;
+        }
+        let begin = match pos(t, &format!("call.begin:{k}"), from) {
+          Some(b) => b,
+          None => continue,
+        };
+        let end = pos(t, &format!("call.end:{k}"), begin).unwrap_or(tr.len());
+        from = end;
+        let copy = (begin..end).find(|i| tr[*i].thread == t && tr[*i].name == "reader.after_manifest_copy");
+        let res = results[t].get(k).cloned().unwrap_or(json!(null));
+        let others_inside = (begin..end).any(|i| tr[i].thread != t && matches!(tr[i].name.as_str(), "commit.after_publish" | "compact.before_cleanup" | "compact.after_cleanup"));
+        nontrivial |= others_inside;
+        s.count(if res["open"] == "ok" { "open_ok" } else { "open_failed" });
+        // -- finder --
+        if res["open"] != "ok" {
+          // classify: a compaction removed its old files inside this reader's open window, and the
+          // reader had copied the manifest before that compaction published
+          let err = res["error"].as_str().unwrap_or("");
+          let missing = err.contains("No such file") || err.contains("missing in memory storage");
+          let mut by_cleanup = false;
+          if let Some(cp) = copy {
+            for u in 0..n {
+              let mut f = 0;
+              while let Some(bc) = pos(u, "compact.before_cleanup", f) {
+                let ac = pos(u, "compact.after_cleanup", bc).unwrap_or(tr.len());
+                if cp < bc && bc < end && ac > cp {
+                  by_cleanup = true;
+                }
+                f = bc + 1;
+              }
+            }
+          }
+          if missing && by_cleanup {
+            s.fail("reader.open-vs-compact-cleanup", "IndexReader::open failed with a missing segment file: it copied the manifest, a concurrent compaction published and removed the old segment files, then the reader tried to open them", case, json!({"thread": t, "call": k, "error": err, "trace": trace_json}));
+          } else {
+            s.fail("reader.open-failed", "IndexReader::open failed during concurrent commits/compactions", case, json!({"thread": t, "call": k, "error": err, "missing_file": missing, "trace": trace_json}));
+          }
+        } else if let Some(e) = res.get("search_error") {
+          s.fail("reader.search-failed", "search on a freshly opened reader failed", case, json!({"thread": t, "call": k, "error": e}));
+        } else {
+          let cont: BTreeMap<String, String> = serde_json::from_value(res["contents"].clone()).unwrap_or_default();
+          let lo = pubs.iter().filter(|(_, done)| *done < begin).count();
+          let hi = pubs.iter().filter(|(enter, _)| copy.map(|cp| *enter < cp).unwrap_or(true)).count();
+          let any = states.iter().any(|st| *st == cont);
+          let in_range = (lo..=hi.min(states.len() - 1)).any(|j| states[j] == cont);
+          if !any {
+            s.fail("reader.mixed-state", "a reader's contents equal no committed state", case, json!({"thread": t, "call": k, "contents": cont, "states": states}));
+          } else if !in_range {
+            s.fail("reader.wrong-state", "a reader's contents equal a committed state that was not in force while it opened", case, json!({"thread": t, "call": k, "contents": cont, "states": states, "lo": lo, "hi": hi}));
+          }
+        }
+        // -- correspondence with the model --
+        if run.blocked_unpredicted == 0 {
+          let mut steps: Vec<Value> = Vec::new();
+          let mut cur = m0.clone();
+          let mut pending_open = false;
+          for (i, e) in tr.iter().enumerate() {
+            if e.thread == t {
+              if i > begin && i <= end && pending_open {
+                steps.push(json!(["rd"]));
+                pending_open = false;
+              }
+              if i > begin && i < end {
+                if e.name == "reader.after_manifest_copy" {
+                  steps.push(json!(["rd"]));
+                } else if e.name == "reader.before_segment_open" {
+                  pending_open = true;
+                }
+              }
+              continue;
+            }
+            match e.name.as_str() {
+              "commit.after_publish" => {
+                if let Some(m) = &e.data {
+                  for nm in names(m) {
+                    if !names(&cur).contains(&nm) {
+                      steps.push(json!(["create", nm]));
+                    }
+                  }
+                  steps.push(json!(["publish", m]));
+                  cur = m.clone();
+                }
+              }
+              "compact.after_segment" => {
+                // the swap happens under the manifest write lock taken before this point; the
+                // manifest itself is captured at the following `compact.before_cleanup`
+                let m = (i..tr.len()).find(|j| tr[*j].thread == e.thread && tr[*j].name == "compact.before_cleanup").and_then(|j| tr[j].data.clone());
+                if let Some(m) = m {
+                  for nm in names(&m) {
+                    steps.push(json!(["create", nm]));
+                  }
+                  steps.push(json!(["publish", m]));
+                  // remember what will be unlinked
+                  steps.push(json!(["_old", names(&cur)]));
+                  cur = m;
+                }
+              }
+              "compact.after_cleanup" => {
+                // unlink what the last `_old` marker of this walk recorded
+                if let Some(p) = steps.iter().rposition(|x| x[0] == "_old") {
+                  let old = steps[p][1].as_array().cloned().unwrap_or_default();
+                  steps[p] = json!(["_done"]);
+                  for nm in old {
+                    steps.push(json!(["unlink", nm]));
+                  }
+                }
+              }
+              _ => {}
+            }
+          }
+          let steps: Vec<Value> = steps.into_iter().filter(|x| x[0] != "_old" && x[0] != "_done").collect();
+          let m = drv.call("C06", json!({"op": "open", "dir": names(&m0), "manifest": m0, "steps": steps}));
+          s.traces_validated += 1;
+          if m["ok"] != json!(true) {
+            s.disagree("driver", case, json!(null), m.clone());
+          } else {
+            s.count(if m["protected"] == json!(true) { "monitor_window_protected" } else { "monitor_window_unprotected" });
+            let impl_failed = res["open"] != "ok";
+            let model_failed = m["failed"] == json!(true);
+            let copied_ok = impl_failed || m["copied"] == res["manifest"];
+            if impl_failed != model_failed || !copied_ok || (m["protected"] == json!(true) && impl_failed) {
+              s.disagree("reader.open.model", case, json!({"thread": t, "call": k, "open": res["open"], "error": res["error"], "manifest": res["manifest"], "steps": steps, "trace": trace_json}), m.clone());
+            }
+          }
+        } else {
+          s.count("correspondence_skipped_timing");
+        }
+      }
+    }
+    s.case(case, nontrivial);
+    // ---- snapshot stability: search the old readers again after all changes ----
+    match reader_contents(&pre_reader) {
+      Ok(c) => {
+        if c != s0 {
+          s.fail("reader.snapshot-changed", "a reader opened before the changes returns different results afterwards", case, json!({"before": s0, "after": c}));
+        }
+      }
+      Err(e) => s.fail("reader.search-failed-after-change", "a reader opened before the changes fails afterwards", case, json!(e)),
+    }
+    for (t, k, r) in readers.lock().unwrap().iter() {
+      let first: Option<BTreeMap<String, String>> = results[*t].get(*k).and_then(|v| serde_json::from_value(v["contents"].clone()).ok());
+      match (reader_contents(r), first) {
+        (Ok(c), Some(f)) => {
+          if c != f {
+            s.fail("reader.snapshot-changed", "a reader opened during the changes returns different results afterwards", case, json!({"thread": t, "call": k, "first": f, "again": c}));
+          }
+        }
+        (Err(e), _) => s.fail("reader.search-failed-after-change", "a reader opened during the changes fails afterwards", case, json!({"thread": t, "call": k, "error": e})),
+        _ => {}
+      }
+    }
+    // final contents = last committed state
+    match contents(&index) {
+      Ok(c) => {
+        if Some(&c) != states.last() {
+          s.fail("final.contents-mismatch", "final contents differ from the serial execution", case, json!({"concurrent": c, "serial": states.last()}));
+        }
+      }
+      Err(e) => s.fail("final.reader-failed", "fresh reader after the run failed", case, json!(e)),
+    }
+  }
+  fn finish(&self, tier: Tier, s: &mut Summary) {
+    s.exhaustive = tier == Tier::Quick || tier == Tier::Thorough;
+    s.notes.push("exhaustive over the merges of one reader's steps with one compaction and one commit at the instrumented points (both lock orders); not over timing inside a step".into());
+  }
 }
